@@ -381,6 +381,7 @@ func checkMetafile(st *Stats, label string, p *L.Project) bool {
 					fromCode = append(fromCode, ci)
 				}
 			}
+			listedAll := append([]expImport{}, listed...)
 			if p.Opt.MinifyI {
 				// the require shim is renamed: calls to it cannot be recognised in the code
 				listed, fromCode = dropKind(listed, "require-call"), dropKind(fromCode, "require-call")
@@ -396,6 +397,24 @@ func checkMetafile(st *Stats, label string, p *L.Project) bool {
 					fail("metafile-output-import-names-no-emitted-file", "file-loader-path", fl.Path, wantOut)
 				} else if !bytes.Contains(data, []byte(path.Base(frel))) {
 					fail("metafile-output-import-not-in-code", "file-loader-not-referenced", fl.Path, "referenced in "+rel)
+				}
+			}
+			// every emitted asset whose name is written in this file's code must be listed as an import
+			for q := range b.Outputs {
+				if isJSPath(q) || strings.HasSuffix(q, ".css") || strings.HasSuffix(q, ".map") || strings.HasSuffix(q, ".LEGAL.txt") {
+					continue
+				}
+				if !strings.Contains(path.Base(q), "-") || !bytes.Contains(data, []byte(path.Base(q))) {
+					continue // (names without a hash, e.g. img0.png, also occur in path comments)
+				}
+				found := false
+				for _, e := range append(listedAll, fileLoader...) {
+					if e.Path == outKey(q) {
+						found = true
+					}
+				}
+				if !found {
+					fail("metafile-output-misses-asset-import", "asset-reference-not-listed", outKey(q), "listed in outputs["+rel+"].imports")
 				}
 			}
 			for _, ar := range assetRefs {
